@@ -223,24 +223,35 @@ Definition imp_eqb (a b : option (nat * string * string)) : bool :=
   | _, _ => false
   end.
 
-(* component.cpp: Component::doEquals over componententity.cpp: ComponentEntity::doEquals.
-   [ceq false a b] = a.equals(b); [ceq true a b] = b.equals(a) (the direction flips at every level because
-   containsComponent(c) asks the *other* side's children whether they equal c). *)
-Fixpoint ceq (flip : bool) (a b : comp) {struct a} : bool :=
-  match a, b with
-  | Comp n imp used kids, Comp n' imp' used' kids' =>
-    String.eqb n n' && Nat.eqb (length kids) (length kids') && imp_eqb imp imp' &&
-    (if flip
-     then equal_entities var_eqb (index_from 0 used') (index_from 0 used)
-          && forallb (fun kb => existsb (fun ka => ceq false ka kb) kids) kids'
-     else equal_entities var_eqb (index_from 0 used) (index_from 0 used')
-          && forallb (fun ka => existsb (fun kb => ceq true ka kb) kids') kids)
+Fixpoint cheight (c : comp) : nat :=
+  match c with Comp _ _ _ kids => S (fold_right (fun k acc => Nat.max (cheight k) acc) 0 kids) end.
+
+(* component.cpp: Component::doEquals over componententity.cpp: ComponentEntity::doEquals (as of commit 5ddf710:
+   the child components are matched one-to-one by the same first-unmatched loop as equalEntities).
+   [ceqf n false a b] = a.equals(b); [ceqf n true a b] = b.equals(a): the direction flips at every level because the
+   loop asks the OTHER side's child whether it equals this side's child.  [n] bounds the depth of the component
+   trees ([ceq] starts it above the height of [a], so it never runs out). *)
+Fixpoint ceqf (n : nat) (flip : bool) (a b : comp) {struct n} : bool :=
+  match n with
+  | 0 => false
+  | S m =>
+    match a, b with
+    | Comp nm imp used kids, Comp nm' imp' used' kids' =>
+      String.eqb nm nm' && Nat.eqb (length kids) (length kids') && imp_eqb imp imp' &&
+      (if flip
+       then equal_entities var_eqb (index_from 0 used') (index_from 0 used)
+            && greedy (fun kb ka => ceqf m false ka kb) kids' kids
+       else equal_entities var_eqb (index_from 0 used) (index_from 0 used')
+            && greedy (fun ka kb => ceqf m true ka kb) kids kids')
+    end
   end.
+
+Definition ceq (flip : bool) (a b : comp) : bool := ceqf (S (cheight a)) flip a b.
 
 (* model.cpp: Model::doEquals — this = a, other = b *)
 Definition model_equals (a b : model) : bool :=
   String.eqb (m_name a) (m_name b) && Nat.eqb (length (m_comps a)) (length (m_comps b))
-  && forallb (fun ca => existsb (fun cb => ceq true ca cb) (m_comps b)) (m_comps a)
+  && greedy (fun ca cb => ceq true ca cb) (m_comps a) (m_comps b)
   && Nat.eqb (length (m_units a)) (length (m_units b))          (* model.cpp: ModelImpl::equalUnits compares the counts *)
   && equal_entities units_equals (m_units a) (m_units b).
 
